@@ -1,3 +1,4 @@
+#include <iostream>
 // C03 harness (flavour S): the unmodified parmcb TBB entry points run on top of the vtbb shim.
 //   explore mode : for every input, every schedule within the deviation bound (all parallel_reduce outcomes always)
 //   thread mode  : (-DVTBB_THREADS, built with -fsanitize=thread) one run per input, one thread per leaf
@@ -158,6 +159,9 @@ static void explore_input(vr::Runner &R, const Cfg &cfg, const vg::EdgeList &el,
 
 int main(int argc, char **argv) {
     vr::Args A(argc, argv);
+#ifdef PARMCB_LOGGING
+    std::cout.setstate(std::ios_base::badbit);      // built against a config.hpp with PARMCB_LOGGING on: the library chats on std::cout (harness output uses stdio)
+#endif
     Cfg cfg;
     cfg.variants = vv::parse_variants(A.get("variants", "signed_tbb,fvs_tbb,iso_tbb"));
     if (A.has("ks")) for (auto &s : vr::split(A.get("ks"), ',')) cfg.ks.push_back(atol(s.c_str()));
